@@ -84,7 +84,7 @@ type WrapCase struct {
 
 // cacheKinds: default lifetimes of the cache handed to Before/Once. Everything that is not positive means "entries never
 // expire" (cache.New: "less than zero (or NoExpiration)"; 0 likewise); one hour is positive but outlives every case.
-var cacheKinds = []time.Duration{cache.NoExpiration, 0, -time.Second, math.MinInt64, time.Hour, -2}
+var cacheKinds = []time.Duration{cache.NoExpiration, 0, -time.Second, math.MinInt64, time.Hour, -2, math.MaxInt64}
 
 func kindName(k int) string {
 	return fmt.Sprintf("cache.New(default lifetime %d ns, no cleanup)", int64(cacheKinds[k]))
@@ -358,6 +358,8 @@ func onceProp(c OnceCase, r *pbt.R) error {
 		}
 		if c.Sweep {
 			cc.DeleteExpired()
+			// a bulk load that names the memo's key among others is refused for that key (it is live): the memo stays
+			cc.MapToCache(map[string]int{"func": -5, "other": i}, time.Millisecond)
 		}
 	}
 	r.NonTrivialIf(calls >= 1, "called")
@@ -780,7 +782,7 @@ func TestProp(t *testing.T) {
 		},
 		&pbt.Check[WrapCase]{
 			Name: "before",
-			Rule: "Before(&n, cache, fn) called k times in a row on a fresh cache without cleanup goroutine (x 6 ways of making it: NoExpiration, or a default lifetime of 0, -1s, the most negative Duration, -2ns or one hour with DeleteExpired after every call - none of these entries may expire or be swept), optionally followed by a second counter (1, 2; random up to 7) used up on the same cache, for which only the number of runs is asserted; fn counts its invocations and returns a value of its own each time (x 3: never the zero value / its first run returns 0 / its nth run returns 0); " +
+			Rule: "Before(&n, cache, fn) called k times in a row on a fresh cache without cleanup goroutine (x 7 ways of making it: NoExpiration, or a default lifetime of 0, -1s, the most negative Duration, -2ns, one hour or the largest Duration with DeleteExpired after every call - none of these entries may expire or be swept), optionally followed by a second counter (1, 2; random up to 7) used up on the same cache, for which only the number of runs is asserted; fn counts its invocations and returns a value of its own each time (x 3: never the zero value / its first run returns 0 / its nth run returns 0); " +
 				scopeText + " x every k in 0..12 (0..24) x counter type int/int8/int64; random: n in -20..40, k in 0..60. " +
 				"Oracle: call i runs fn exactly once iff i <= n and then returns that result; every later call runs nothing and (n >= 1) returns the result of the nth run; for n <= 0 the returned value is not asserted. " +
 				"Non-trivial = at least one call was made.",
@@ -791,7 +793,7 @@ func TestProp(t *testing.T) {
 		&pbt.Check[OnceCase]{
 			Name: "once",
 			Rule: "Once(cache, fn) called k times in a row on a fresh non-expiring cache with a new counting closure per call returning a fresh value (the first run returns either a non-zero value or the zero value 0 of the int result type); " +
-				"enumerated: every k in 0..12 (thorough 0..64) x {non-zero, zero first result} x {NoExpiration cache, cache with a default lifetime of 0, -1s, the most negative Duration, -2ns or one hour swept by DeleteExpired after every call}; random: k in 0..400. Oracle: exactly one invocation (during the first call), every call returns the first result. " +
+				"enumerated: every k in 0..12 (thorough 0..64) x {non-zero, zero first result} x {NoExpiration cache, cache with a default lifetime of 0, -1s, the most negative Duration, -2ns, one hour or the largest Duration, swept by DeleteExpired after every call and offered a bulk load (MapToCache) that names the memo's key, which must be refused}; random: k in 0..400. Oracle: exactly one invocation (during the first call), every call returns the first result. " +
 				"Non-trivial = at least one call was made.",
 			Enum: func(s pbt.Src, thorough bool) OnceCase {
 				if thorough {
